@@ -21,7 +21,7 @@ RULE = ("Programs of every generator profile, the repository's deterministic fix
 ASSUMPTIONS = ["reference evaluator uses python floats (IEEE binary64) and Rust's shortest round-trip formatting",
                "NaN used as a map key is compared between the builds but not against the model (the tree normalises NaN "
                "keys to one sentinel, IEEE says it can never be found again: unspecified)"]
-GATES = {"profile:numeric": 0.20}
+GATES = {"profile:numeric": 0.12}
 LEVEL_TEXT = ("Differential search between the two builds of the same source, with the model as third voice; finds "
               "representation-dependent behaviour in the programs generated.")
 LEVEL_NOTE = "Trusted base: the four worker builds come from the same tree with/without the nan_boxing feature."
@@ -34,7 +34,9 @@ def cases(tier):
 
 def strategy(hazards):
     numeric = gen.numeric_program().map(lambda p: ("gen", "numeric", p))
-    return st.tuples(st.one_of(numeric, progs.program_cases(hazards)), st.integers(0, 1))
+    # .map keeps one_of from flattening the profile alternatives into its own: half numeric programs
+    others = progs.program_cases(hazards)
+    return st.tuples(st.one_of(numeric, numeric.map(lambda p: p), others.map(lambda p: p), others.map(lambda p: p)), st.integers(0, 1))
 
 
 def run_case(case, ctx):
